@@ -249,6 +249,8 @@ def main():
     for f in os.listdir(replay_dir):
         if f.endswith(".json"):
             os.remove(os.path.join(replay_dir, f))
+    undecided = []
+    records, violations, annotations, cmds, vinfo = [], [], [], [], None
     try:
         mods, kobs = kani_obligations(prop, a.tier)
         vobs = V.obligations(prop, a.tier) if V else []
@@ -257,42 +259,54 @@ def main():
             vobs = [o for o in vobs if a.only in o["unit"]]
         if not kobs and not vobs and not any(prop in h["props"] for e in K.discover_ext() for h in e["harnesses"]):
             raise Undecided("no obligations registered for %s (vacuity guard)" % prop)
-        records, violations, annotations, cmds = [], [], [], []
-        if kobs:
+    except Undecided as u:
+        log("UNDECIDED %s: %s" % (prop, u))
+        print("UNDECIDED property=%s reason=%s" % (prop, str(u).splitlines()[0][:300]))
+        return 2
+    # each engine is run even if another one cannot decide: a refutation found by one engine stands
+    if kobs:
+        try:
             r, v, an, c = run_kani(prop, a.tier, kobs, mods, a.jobs, replay_dir, known_sites)
             records += r
             violations += v
             annotations += an
             cmds += c
+        except Undecided as u:
+            undecided.append("kani: %s" % u)
+    try:
         xr, xv, xc = run_ext(prop, a.tier, a.jobs, replay_dir, known_sites, a.only)
         records += xr
         violations += xv
         cmds += xc
-        vinfo = None
-        if vobs:
+    except Undecided as u:
+        undecided.append("kani-ext: %s" % u)
+    if vobs:
+        try:
             r, v, vinfo, c = V.run(prop, a.tier, vobs, a.jobs, replay_dir, known_sites)
             records += r
             violations += v
             cmds += c
-        expected = _expected_count(prop, a.tier)
-        if not a.only and expected and len(records) < expected:
-            raise Undecided("obligation count %d below the recorded minimum %d for %s/%s (vacuity guard)" % (
-                len(records), expected, prop, a.tier))
-    except Undecided as u:
-        log("UNDECIDED %s: %s" % (prop, u))
-        print("UNDECIDED property=%s reason=%s" % (prop, str(u).splitlines()[0][:300]))
-        return 2
+            undecided += vinfo.get("undecided", [])
+        except Undecided as u:
+            undecided.append("verus: %s" % u)
+    expected = _expected_count(prop, a.tier)
+    if not a.only and not undecided and expected and len(records) < expected:
+        undecided.append("obligation count %d below the recorded minimum %d for %s/%s (vacuity guard)" % (len(records), expected, prop, a.tier))
     wall = time.time() - t0
     new = [v for v in violations if not v["known"]]
     for v in violations:
         if v["known"]:
             k = [k for k in known if k["site"] == v["site"]][0]
             print("KNOWN-FINDING: property=%s site=%s %s" % (prop, v["site"], k["text"]))
-    if not a.only:
+    if not a.only and not undecided:
         write_evidence(prop, a.tier, seed, records, violations, annotations, cmds, vinfo, wall)
     for v in new:
         print("VIOLATION property=%s replay=%s%s" % (prop, v["replay"], " no-failing-input-found" if v["no_input"] else ""))
         log("  refuted obligation %s: %s" % (v["rec"]["name"], json.dumps(v["rec"].get("failed"))[:600]))
+    for u in undecided:
+        log("UNDECIDED part of %s: %s" % (prop, str(u)[:1500]))
+    if undecided and not new:
+        print("UNDECIDED property=%s reason=%s" % (prop, str(undecided[0]).splitlines()[0][:300]))
     log("%s: %d obligations, %d discharged, %d refuted (%d known) in %.1fs" % (
         prop, len(records), sum(1 for r in records if r["status"] == "discharged"), len(violations),
         len(violations) - len(new), wall))
